@@ -364,6 +364,11 @@ RULES = {
     # format code of this record has already run" (C10: the state lock is never held while format / Display code runs, which may log
     # recursively and would re-lock the mutex on the same thread); same result specification as the prelude's Mutex::lock
     "R27": [(".lock()", ".vlock_late()")],
+    # R29: `s == suffix` with `s: Cow<str>` (PartialEq<&str> for Cow<str> cannot be given a specification) -> shim `vcow_eq(&s, suffix)`
+    "R29": [("s==suffix", "vcow_eq(&s, suffix)")],
+    # R28 (computed): byte-offset string operations -> shims over the UTF-8 model of the unit (`byte_len` = sum of the characters' widths):
+    # `s.find(c)` -> `s.vfind(c)`, `&s[..end]` -> `s.vslice_to(end)` (precondition: `end` is a character boundary), `&cow[..]` -> `vfull(&cow)`
+    "R28": [],
     # R5l (computed, see apply_rule): every byte-string literal b".." (Verus gives byte-string literals no value)
     # becomes a constant VLIT_<hex bytes>, defined at the template's `//@ literals` line as an exec const whose body is
     # the literal and whose view is the sequence of its bytes (same scheme as R5 bytesconst)
@@ -465,6 +470,32 @@ def apply_rule(sf, a, b, rule, edits):
                 edits.replace(sigidx[p], sigidx[p + 5] + 1, [Piece(".v%s_filter_map" % tt[1], sf, toks[sigidx[p]].start)])
                 edits.replace(tail[0], tail[3] + 1, [Piece("")])
                 hits += 1
+        return hits
+    if rule == "R28":
+        # `.find($C)` -> `.vfind($C)`; `&x[..end]` -> `x.vslice_to(end)`; `&x[..]` -> `vfull(&x)` (x, end identifiers)
+        T = lambda q: toks[sigidx[q]]
+        p = 0
+        while p < len(sigidx):
+            if T(p).text == "&" and p + 5 < len(sigidx) and T(p + 1).kind == "ident" and [T(p + 2).text, T(p + 3).text, T(p + 4).text] == ["[", ".", "."]:
+                if T(p + 5).text == "]":
+                    edits.replace(sigidx[p], sigidx[p + 5] + 1, [Piece("vfull(&%s)" % T(p + 1).text, sf, T(p).start)])
+                    hits += 1
+                    p += 6
+                    continue
+                if p + 6 < len(sigidx) and T(p + 5).kind == "ident" and T(p + 6).text == "]":
+                    edits.replace(sigidx[p], sigidx[p + 6] + 1, [Piece("%s.vslice_to(%s)" % (T(p + 1).text, T(p + 5).text), sf, T(p).start)])
+                    hits += 1
+                    p += 7
+                    continue
+            if T(p).text == "." and p + 6 < len(sigidx) and [T(p + q).text for q in (1, 2, 4, 5, 6)] == ["get", "(", ".", ".", ")"] and T(p + 3).kind == "ident":
+                edits.replace(sigidx[p + 1], sigidx[p + 6] + 1, [Piece("vget_from(%s)" % T(p + 3).text, sf, T(p + 1).start)])
+                hits += 1
+                p += 7
+                continue
+            if T(p).text == "." and p + 2 < len(sigidx) and T(p + 1).text == "find" and T(p + 2).text == "(":
+                edits.replace(sigidx[p + 1], sigidx[p + 1] + 1, [Piece("vfind", sf, T(p + 1).start)])
+                hits += 1
+            p += 1
         return hits
     if rule == "R5l":
         import ast
